@@ -3,3 +3,4 @@ import Op2Model.Str
 import Op2Model.Path
 import Op2Model.Bits
 import Op2Model.Tile
+import Op2Model.Stream
